@@ -19,7 +19,7 @@ for ID in ids:
             shutil.copy(os.path.join(d, f), dst)
         m = json.load(open(os.path.join(d, "meta.json")))
         m["breaks_property"] = ID
-        m["round"] = int(os.environ.get("SEED_ROUND", "4"))
+        m["round"] = int(os.environ.get("SEED_ROUND", "5"))
         m["confirmed"] = "by tools/seed_validate.py in a scratch worktree of /repo HEAD: demo.py PASS on the clean tree, FAIL with the patch, all 111 baseline tests still pass"
         json.dump(m, open(os.path.join(dst, "meta.json"), "w"), indent=1)
         names.append(name)
